@@ -384,7 +384,8 @@ def obligations(tier):
     fam = cb_instances(tier)
     for (n1, J1), (n2, J2) in [(fam[0], fam[1]), (fam[2], fam[0])]:
         obs.append(SdpTask("diamond_distance.is_cb_trace_norm_of_difference", {"maps": [n1, n2]}, (lambda J1=J1, J2=J2: diamond_distance(J1 + np.eye(4), J2)),
-                           (lambda V, inst: ref_cbtn(V, inst)), instance=(J1 + np.eye(4)) - J2, value_of=lambda r: 2 * float(r)))
+                           (lambda V, inst: ref_cbtn(V, inst)), instance=(J1 + np.eye(4)) - J2, value_of=lambda r: 2 * float(r),
+                           replay_oracle=cbtn_value, tol=2e-3))
     # pairs of unitary channels in dimension 3 (closed form 2 sqrt(1 - delta^2), delta = distance from 0 to the convex hull of spec(U^* V))
     U3 = [("identity", np.eye(3)), ("diag(1, i, -1)", np.diag([1, 1j, -1])), ("cyclic shift", np.roll(np.eye(3), 1, axis=0)),
           ("diag(1, i, i)", np.diag([1, 1j, 1j]))]
